@@ -90,6 +90,20 @@ func c13Case(c *core.Ctx, id string) {
 			failing = []string{ts[r.IntN(len(ts))].Label()}
 		}
 		always := r.IntN(12) == 0
+		if r.IntN(6) == 0 {
+			// an interrupted build (killed inside or right around one body), possibly after its
+			// output was deleted: leaves "must re-run" state behind for the dry run to respect
+			if r.IntN(2) == 0 {
+				e.Edit("output-delete")
+			}
+			ts := e.P.AllTargets()
+			e.ChildBuild = childBuilder(c, 0)
+			e.Build(target, pj.BuildOpt{Child: true, NoCheck: true, Always: always,
+				Env: []string{fmt.Sprintf("VERIF_CRASH=%s|%s|1", []string{"body.start", "body.mid", "body.end", "eval.after-body"}[r.IntN(4)], ts[r.IntN(len(ts))].Label())}})
+			c.Count("interrupted_builds", 1)
+			c.Eval("")
+			continue
+		}
 		if r.IntN(2) == 0 {
 			// plain build step
 			if _, res, _ := e.Build(target, pj.BuildOpt{Failing: failing, Always: always}); res.LoadErr != "" {
@@ -106,6 +120,7 @@ func c13Case(c *core.Ctx, id string) {
 		// dry run, hashing the tree around Run
 		e.S.SetFailing(failing)
 		from := e.S.LogLen()
+		recsBefore := pj.Records(s.Root)
 		dry := pj.Build(pj.BuildReq{Root: s.Root, Target: target, Dry: true, Always: always, Args: e.P.Args, HashAround: true})
 		if dry.LoadErr != "" {
 			viol("generated-project-does-not-load", map[string]any{"error": dry.LoadErr})
@@ -123,6 +138,13 @@ func c13Case(c *core.Ctx, id string) {
 		if len(dry.Changed) > 0 {
 			viol("dry-run-changed-files", map[string]any{"target": target, "changed": dry.Changed})
 			return
+		}
+		// the load that precedes the dry Run may refresh records, but what they say must not change
+		for rel, after := range pj.Records(s.Root) {
+			if before, ok := recsBefore[rel]; ok && (before.Rerun != after.Rerun || before.Stamp != after.Stamp || fmt.Sprint(before.Dependencies) != fmt.Sprint(after.Dependencies)) {
+				viol("dry-run-changed-persisted-build-state", map[string]any{"target": target, "record": rel, "before": string(before.Raw), "after": string(after.Raw)})
+				return
+			}
 		}
 		dryEval := evaluatingSet(dry.Events)
 		// the real build from the same state
@@ -268,7 +290,7 @@ func c14Case(c *core.Ctx, id string) {
 		for k := r.IntN(3); k > 0 && step > 0; k-- {
 			kind := ""
 			if r.IntN(3) == 0 {
-				kind = []string{"tgt-remove", "tgt-add", "dir-del", "dep-remove"}[r.IntN(4)]
+				kind = []string{"tgt-remove", "tgt-add", "dir-del", "dep-remove", "src-delete", "src-restore"}[r.IntN(6)]
 			}
 			e.Edit(kind)
 		}
